@@ -66,6 +66,9 @@ type FileSpec struct {
 	Perm     []int // order of the kernel groups in the symbol table
 	Arr      int   // arrangement of the symbols of a group (0..3)
 	Decoys   bool
+	// ABI: EI_ABIVERSION of a file with descriptor kernels (1 = code object V3, 2 = V4, 3 = V5, 4 = V6; 0 = 4).
+	// Kernel descriptors exist from V3 on; the loader must treat all of them alike.
+	ABI int
 }
 
 func le16(b []byte, v uint16) { binary.LittleEndian.PutUint16(b, v) }
@@ -432,6 +435,9 @@ func (f FileSpec) Build() []byte {
 	for _, k := range f.Kernels {
 		if k.Kind != kindHeader {
 			abi = 4
+			if f.ABI != 0 {
+				abi = byte(f.ABI)
+			}
 		}
 	}
 	out[8] = abi
